@@ -26,6 +26,7 @@ def kindOfConf {W : Type} : Confidence W → String
   | .lower _ => "IL"
 
 def absF (x : Float) : Float := x.abs
+def fmax (a b : Float) : Float := if a < b then b else a
 
 /-- tolerance for the bounds of a mean-type interval computed from `mean`, `c`, `sem` in type `F` -/
 def boundTol {F : Type} [FloatLike F] (mean c sem : Float) : Float :=
@@ -101,10 +102,384 @@ def arithOp {F : Type} [FloatLike F] [Widen F Float] (args : List String) : Opti
       let (cs, sk) := oracleMeanCI (F := F) conf (xs.map FloatLike.toF64) c (impl.take 5)
       { model := model, prop := cs, skipped := sk } }
 
+/-! ### geometric / harmonic -/
+
+def u64 : Float := Float.scaleB 1.0 (-53)
+
+/-- `count mean sem` of a wrapper state (`sem` underflows `count - 1` on the empty state) -/
+def wstats {F : Type} [FloatLike F] (count : Nat) (mean sem : F) : List Tok :=
+  [.s (toString count), relTok mean] ++ (if count = 0 then [.s "panic", .s "overflow"] else [relTok sem])
+
+def approxRel (a b rel : Float) : Bool :=
+  if a.isNaN || b.isNaN then a.isNaN && b.isNaN
+  else if a == b then true
+  else decide (absF (a - b) ≤ rel * fmax (absF a) (absF b))
+
+/-- compare two intervals of the implementation bound-wise through `f` with a relative tolerance -/
+def relateIntervals {F : Type} [FloatLike F] (what : String) (rel : Float)
+    (expect : Interval F → Option (Interval Float)) (src dst : List String) : List String :=
+  match pImplInterval (F := F) src, pImplInterval (F := F) dst with
+  | some a, some d =>
+    match expect a with
+    | none => []
+    | some e =>
+      let d' := d.map FloatLike.toF64
+      let ok := match e, d' with
+        | .twoSided x y, .twoSided u v => approxRel x u rel && approxRel y v rel
+        | .upper x, .upper u => approxRel x u rel
+        | .lower y, .lower v => approxRel y v rel
+        | _, _ => false
+      if ok then [] else [s!"{what}:mismatch(expected {" ".intercalate (encInterval e)})"]
+  | _, _ => []
+
+/-- `geo F conf xs => ci | from_iter+ci_mean | incremental | ok count mean sem | Arithmetic::ci(conf, ln xs) | arith mean` -/
+def geoOp {F : Type} [FloatLike F] [Widen F Float] (args : List String) : Option OpEval := do
+  let (conf, r) ← pConf args
+  let (xs, _) ← pList (α := F) r
+  let st : Outcome (Err Float) (Geometric F) := Geometric.fromList xs
+  let logs := xs.map Scalar.ln
+  let prep : Outcome (Err Float) (Arith.Prep Float) := match st with
+    | .ok g => g.logs.ciPrep
+    | .err e => .err e
+    | .panic t => .panic t
+  let needs := match prep with
+    | .ok p => [critReq conf p.dof]
+    | _ => []
+  pure {
+    needs := needs
+    run := fun crit impl =>
+      let out : Outcome (Err Float) (Interval F) := Geometric.ci crit conf xs
+      let (tolA, expScale) := match prep with
+        | .ok p =>
+          let c := crit (critReq conf p.dof)
+          (boundTol (F := F) p.mean c p.sem, (absF p.mean + absF (c * p.sem)))
+        | _ => (0.0, 0.0)
+      -- d exp(b) = exp(b)·db : relative tolerance on the back-transformed bounds
+      let relG := tolA + 16.0 * FloatLike.u F
+      let tokG (i : Interval F) : List Tok :=
+        let t (x : F) := FloatLike.tok x (relG * absF (FloatLike.toF64 x) + Float.scaleB 1.0 (-1060))
+        match i with
+        | .twoSided a b => [.s "I2", t a, t b]
+        | .upper a => [.s "IU", t a]
+        | .lower b => [.s "IL", t b]
+      let _ := expScale
+      let o := tokOutcome tokG out
+      let stT : List Tok := match st with
+        | .ok g => .s "ok" :: wstats g.sampleCount g.mean g.sem
+        | .err e => tokErr e
+        | .panic t => [.s "panic", .s t]
+      let a : Outcome (Err Float) (Interval F) := Arith.ci crit conf logs
+      let aT := tokOutcome (tokInterval tolA) a
+      let am := relTok (Arith.fromList xs).mean
+      -- oracle (on the implementation's own outputs): geometric CI = exp(arithmetic CI of the logs)
+      let cs := match impl with
+        | g1 :: _ :: _ :: _ :: ar :: _ =>
+          relateIntervals (F := F) "geo=exp(arith(ln))" (32.0 * FloatLike.u F)
+            (fun i => some ((i.map FloatLike.toF64).map (fun b => FloatLike.toF64 (Scalar.exp (Widen.down b : F))))) ar g1
+        | _ => []
+      { model := joinBar [o, o, o, stT, aT, [am]], prop := cs } }
+
+/-- `harm F conf xs => ci | from_iter+ci_mean | incremental | ok count mean sem | Arithmetic::ci(conf.flipped, 1/xs) | arith mean` -/
+def harmOp {F : Type} [FloatLike F] [Widen F Float] (args : List String) : Option OpEval := do
+  let (conf, r) ← pConf args
+  let (xs, _) ← pList (α := F) r
+  let st : Outcome (Err Float) (Harmonic F) := Harmonic.fromList xs
+  let recips := xs.map (fun x => NumOps.div (NumOps.one : F) x)
+  let prep : Outcome (Err Float) (Arith.Prep Float) := match st with
+    | .ok h => h.recip.ciPrep
+    | .err e => .err e
+    | .panic t => .panic t
+  let needs := match prep with
+    | .ok p => [critReq conf.flipped p.dof]
+    | _ => []
+  pure {
+    needs := needs
+    run := fun crit impl =>
+      let out : Outcome (Err Float) (Interval F) := Harmonic.ci crit conf xs
+      let (tolA, lowMag) := match prep with
+        | .ok p =>
+          let c := crit (critReq conf.flipped p.dof)
+          (boundTol (F := F) p.mean c p.sem, absF p.mean)
+        | _ => (0.0, 1.0)
+      let _ := lowMag
+      -- d(1/b) = db / b² : relative tolerance tolA / |b| on 1/b
+      let tokH (i : Interval F) : List Tok :=
+        let t (x : F) :=
+          let xv := absF (FloatLike.toF64 x)
+          FloatLike.tok x (tolA * xv * xv + 16.0 * FloatLike.u F * xv + Float.scaleB 1.0 (-1060))
+        match i with
+        | .twoSided a b => [.s "I2", t a, t b]
+        | .upper a => [.s "IU", t a]
+        | .lower b => [.s "IL", t b]
+      let o := tokOutcome tokH out
+      let stT : List Tok := match st with
+        | .ok h => .s "ok" :: wstats h.sampleCount h.mean h.sem
+        | .err e => tokErr e
+        | .panic t => [.s "panic", .s t]
+      let a : Outcome (Err Float) (Interval F) := Arith.ci crit conf.flipped recips
+      let aT := tokOutcome (tokInterval tolA) a
+      let am := relTok (Arith.fromList xs).mean
+      -- oracle: harmonic CI = reciprocal of the arithmetic CI of the reciprocals, ends exchanged,
+      -- whenever the reciprocal-space bound used is strictly positive
+      let inv (b : Float) : Float := FloatLike.toF64 (NumOps.div (NumOps.one : F) (Widen.down b : F))
+      let cs := match impl with
+        | h1 :: _ :: _ :: _ :: ar :: _ =>
+          relateIntervals (F := F) "harm=1/arith(1/x)" (32.0 * FloatLike.u F)
+            (fun i => match i.map FloatLike.toF64 with
+              | .twoSided lo hi => if lo > 0.0 then some (.twoSided (inv hi) (inv lo)) else none
+              | .lower hi => if hi > 0.0 then some (.upper (inv hi)) else none
+              | .upper lo => if lo > 0.0 then some (.lower (inv lo)) else none) ar h1
+        | _ => []
+      { model := joinBar [o, o, o, stT, aT, [am]], prop := cs } }
+
+/-- `means F xs => arithmetic geometric harmonic` with the oracle `H ≤ G ≤ A` -/
+def meansOp {F : Type} [FloatLike F] [Widen F Float] (args : List String) : Option OpEval := do
+  let (xs, _) ← pList (α := F) args
+  pure {
+    run := fun _ impl =>
+      let am := (Arith.fromList xs).mean
+      let g : Outcome (Err Float) (Geometric F) := Geometric.fromList xs
+      let h : Outcome (Err Float) (Harmonic F) := Harmonic.fromList xs
+      let gT := match g with
+        | .ok g => [relTok g.mean]
+        | _ => [.s "err"]
+      let hT := match h with
+        | .ok h => [relTok h.mean]
+        | _ => [.s "err"]
+      let cs := match impl with
+        | [a, gm, hm] :: _ =>
+          match parseFAny a, parseFAny gm, parseFAny hm with
+          | some a, some gm, some hm =>
+            let slack := 64.0 * FloatLike.u F * (1.0 + (Float.ofNat xs.length).log)
+            (if hm ≤ gm * (1.0 + slack) then [] else ["H>G"]) ++
+            (if gm ≤ a * (1.0 + slack) then [] else ["G>A"])
+          | _, _, _ => []
+        | _ => []
+      { model := [relTok am] ++ gT ++ hT, prop := cs } }
+where
+  parseFAny (t : String) : Option Float :=
+    match parseF64? t with
+    | some x => some x
+    | none => (parseF32? t).map Float32.toFloat
+
+/-- `reject F which conf pos xs => first_err | before | after | ci_mean(state) | one-shot ci` -/
+def rejectOp {F : Type} [FloatLike F] [Widen F Float] (args : List String) : Option OpEval := do
+  let (which, r) ← pTok args
+  let (conf, r) ← pConf r
+  let (pos, r) ← pNat r
+  let (xs, _) ← pList (α := F) r
+  let geo := which == "geo"
+  -- state left behind and first error
+  let (errT, count, mean, sem, prep) :=
+    if geo then
+      let (o, g) := Geometric.extend (W := Float) (Geometric.empty : Geometric F) xs
+      let e : List Tok := match o with
+        | .err e => tokErr e
+        | _ => [.s "none"]
+      (e, g.sampleCount, g.mean, g.sem, (g.logs.ciPrep : Outcome (Err Float) (Arith.Prep Float)))
+    else
+      let (o, h) := Harmonic.extend (W := Float) (Harmonic.empty : Harmonic F) xs
+      let e : List Tok := match o with
+        | .err e => tokErr e
+        | _ => [.s "none"]
+      (e, h.sampleCount, h.mean, h.sem, (h.recip.ciPrep : Outcome (Err Float) (Arith.Prep Float)))
+  let conf' := if geo then conf else conf.flipped
+  let needs := match prep with
+    | .ok p => [critReq conf' p.dof]
+    | _ => []
+  pure {
+    needs := needs
+    run := fun crit impl =>
+      let stT := wstats count mean sem
+      let ciState : Outcome (Err Float) (Interval F) :=
+        if geo then
+          (Geometric.extend (W := Float) (Geometric.empty : Geometric F) xs).2.ciMean crit conf
+        else
+          (Harmonic.extend (W := Float) (Harmonic.empty : Harmonic F) xs).2.ciMean crit conf
+      let one : Outcome (Err Float) (Interval F) :=
+        if geo then Geometric.ci crit conf xs else Harmonic.ci crit conf xs
+      let big : Float := 1.0 / 0.0
+      let loose (i : Interval F) : List Tok := tokInterval (F := F) big i
+      let ciT := tokOutcome (match prep with
+        | .ok p => fun i =>
+            let _ := p
+            -- the accuracy of these bounds is C05's business on the accepted prefix; here the
+            -- outcome class and kind are what matters
+            loose i
+        | _ => loose) ciState
+      -- oracle: the error carries the rejected value, the state is untouched, the one-shot agrees
+      let bad := xs[pos]?
+      let cs := match impl, bad with
+        | [e, before, after, _, oneI], some b =>
+          let want := ["err", "NonPositiveValue", encF64 (FloatLike.toF64 b)]
+          (if (toksEq 0 want e).1 then [] else [s!"error-does-not-carry-value({" ".intercalate e})"]) ++
+          (if before == after then [] else ["state-changed-by-rejected-append"]) ++
+          (if (toksEq 0 want oneI).1 then [] else ["one-shot-disagrees"])
+        | _, _ => ["malformed-reject-output"]
+      { model := joinBar [errT, stT, stT, ciT, tokOutcome loose one], prop := cs } }
+
+/-! ### paired / unpaired -/
+
+def skipT : List Tok := [.s "skip"]
+
+/-- `paired F conf xs ys => ci | extend+ci_mean | extend_tuple | append_pair | count mean sem | Arithmetic::ci(conf, diffs)` -/
+def pairedOp {F : Type} [FloatLike F] [Widen F Float] (args : List String) : Option OpEval := do
+  let (conf, r) ← pConf args
+  let (xs, r) ← pList (α := F) r
+  let (ys, _) ← pList (α := F) r
+  let same := xs.length == ys.length
+  let (st, _) := Paired.extend (W := Float) (Paired.empty : Paired F) xs ys
+  let prep : Outcome (Err Float) (Arith.Prep Float) := match st with
+    | .ok p => p.stats.ciPrep
+    | .err e => .err e
+    | .panic t => .panic t
+  let needs := match prep with
+    | .ok p => [critReq conf p.dof]
+    | _ => []
+  pure {
+    needs := needs
+    run := fun crit impl =>
+      let out : Outcome (Err Float) (Interval F) := Paired.ci crit conf xs ys
+      let tol := match prep with
+        | .ok p => boundTol (F := F) p.mean (crit (critReq conf p.dof)) p.sem
+        | _ => 0.0
+      let o := tokOutcome (tokInterval tol) out
+      let diffs := List.zipWith NumOps.sub xs ys
+      let model :=
+        if same then
+          let o3 : Outcome (Err Float) (Interval F) :=
+            ((Paired.empty : Paired F).extendTuple (xs.zip ys)).ciMean crit conf
+          let o4 : Outcome (Err Float) (Interval F) :=
+            ((xs.zip ys).foldl (fun p ab => p.appendPair ab.1 ab.2) (Paired.empty : Paired F)).ciMean crit conf
+          let stT := match st with
+            | .ok p => wstats p.sampleCount p.mean p.sem
+            | _ => [.s "?"]
+          let ar : Outcome (Err Float) (Interval F) := Arith.ci crit conf diffs
+          joinBar [o, o, tokOutcome (tokInterval tol) o3, tokOutcome (tokInterval tol) o4, stT,
+                   tokOutcome (tokInterval tol) ar]
+        else joinBar [o, o, skipT, skipT, skipT, skipT]
+      -- oracle: paired = arithmetic-mean interval of the differences, exactly, in every feeding
+      -- style; unequal lengths are rejected with both lengths
+      let cs :=
+        if same then
+          match impl with
+          | [a, b, c, d, _, ar] =>
+            (if a == ar && b == ar && c == ar && d == ar then [] else ["paired≠arith(differences)"])
+          | _ => ["malformed"]
+        else
+          let want := ["err", "DifferentSampleSizes", toString xs.length, toString ys.length]
+          match impl with
+          | a :: b :: _ => if a == want && b == want then [] else ["length-mismatch-not-reported"]
+          | _ => ["malformed"]
+      { model := model, prop := cs } }
+
+def negTok (t : String) : String :=
+  match parseF64? t with
+  | some x => encF64 (-x)
+  | none =>
+    match parseF32? t with
+    | some x => encF32 (-x)
+    | none => t
+
+/-- the mirror image of an interval outcome, as tokens -/
+def mirrorToks : List String → List String
+  | ["ok", "I2", a, b] => ["ok", "I2", negTok b, negTok a]
+  | ["ok", "IU", a] => ["ok", "IL", negTok a]
+  | ["ok", "IL", b] => ["ok", "IU", negTok b]
+  | ts => ts
+
+/-- exact-arithmetic oracle for the unpaired interval -/
+def oracleUnpaired {F : Type} [FloatLike F] (conf : Confidence Float) (xs ys : List Float) (c dofModel : Float)
+    (impl : List (List String)) : List String × Nat :=
+  match exactStats xs, exactStats ys with
+  | some ea, some eb =>
+    if ea.n < 2 || eb.n < 2 || c.isNaN then ([], 1) else
+    let ka := ea.kappa; let kb := eb.kappa
+    let va := ea.variance; let vb := eb.variance
+    -- conditioning domain (a constant sample has κ = ∞ but contributes variance 0 exactly: allow it)
+    let okA := va == 0.0 || ka * FloatLike.u F ≤ Float.scaleB 1.0 (-10)
+    let okB := vb == 0.0 || kb * FloatLike.u F ≤ Float.scaleB 1.0 (-10)
+    if !(okA && okB) || (va == 0.0 && vb == 0.0) then ([], 1) else
+    let na := Float.ofNat ea.n; let nb := Float.ofNat eb.n
+    let A := va / na; let B := vb / nb
+    let d := ea.mean - eb.mean
+    let se := (A + B).sqrt
+    let hw := c * se
+    let nu := (A + B) * (A + B) / (A * A / (na + 1.0) + B * B / (nb + 1.0)) - 2.0
+    let kk := fmax (if va == 0.0 then 0.0 else ka) (if vb == 0.0 then 0.0 else kb)
+    let tol := 32.0 * FloatLike.u F * (ea.meanAbs + eb.meanAbs + absF hw * (1.0 + kk)) + Float.scaleB 1.0 (-1060)
+    let lo := d - hw; let hi := d + hw
+    let dofBad :=
+      if dofModel.isNaN then [] else
+      if absF (dofModel - nu) ≤ 64.0 * FloatLike.u F * (1.0 + kk) * (absF nu + 2.0) + 1e-9 then []
+      else [s!"dof-off(model {dofModel} exact {nu})"]
+    let cs := (impl.take 6).foldl (fun (acc : List String × Nat) g =>
+      let (cs, idx) := acc
+      let bad (m : String) := (cs ++ [s!"style{idx}:{m}"], idx + 1)
+      match pImplInterval (F := F) g with
+      | none => bad s!"not-ok({" ".intercalate (g.take 2)})"
+      | some i =>
+        match conf, i with
+        | .twoSided _, .twoSided a b =>
+          if absF (FloatLike.toF64 a - lo) ≤ tol && absF (FloatLike.toF64 b - hi) ≤ tol then (cs, idx + 1)
+          else bad s!"bounds-off(expected {encF64 lo} {encF64 hi} tol {tol})"
+        | .upper _, .upper a =>
+          if absF (FloatLike.toF64 a - lo) ≤ tol then (cs, idx + 1) else bad s!"bound-off(expected {encF64 lo})"
+        | .lower _, .lower b =>
+          if absF (FloatLike.toF64 b - hi) ≤ tol then (cs, idx + 1) else bad s!"bound-off(expected {encF64 hi})"
+        | _, _ => bad "wrong-kind") ([], 1)
+    (dofBad ++ cs.1, 0)
+  | _, _ => ([], 1)
+
+/-- `unpaired F conf xs ys => ci | from_iter | extend_b,extend_a | append_pair… | new | extend | ci(conf.flipped, ys, xs)` -/
+def unpairedOp {F : Type} [FloatLike F] [Widen F Float] (args : List String) : Option OpEval := do
+  let (conf, r) ← pConf args
+  let (xs, r) ← pList (α := F) r
+  let (ys, _) ← pList (α := F) r
+  let u := Unpaired.fromLists xs ys
+  let us := Unpaired.fromLists ys xs
+  let prep : Outcome (Err Float) (Arith.Prep Float) := u.ciPrep
+  let preps : Outcome (Err Float) (Arith.Prep Float) := us.ciPrep
+  let needs := (match prep with
+    | .ok p => [critReq conf p.dof]
+    | _ => []) ++ (match preps with
+    | .ok p => [critReq conf.flipped p.dof]
+    | _ => [])
+  pure {
+    needs := needs
+    run := fun crit impl =>
+      let out : Outcome (Err Float) (Interval F) := Unpaired.ci crit conf xs ys
+      let sw : Outcome (Err Float) (Interval F) := Unpaired.ci crit conf.flipped ys xs
+      let tol := match prep with
+        | .ok p => boundTol (F := F) p.mean (crit (critReq conf p.dof)) p.sem
+        | _ => 0.0
+      let o := tokOutcome (tokInterval tol) out
+      let (c, dof) := match prep with
+        | .ok p => (crit (critReq conf p.dof), p.dof)
+        | _ => (0.0 / 0.0, 0.0 / 0.0)
+      let (cs, sk) := oracleUnpaired (F := F) conf (xs.map FloatLike.toF64) (ys.map FloatLike.toF64) c dof impl
+      -- exchanging the samples negates and mirrors the interval, exactly
+      let csw := match impl with
+        | a :: _ :: _ :: _ :: _ :: _ :: [s] =>
+          if (toksEq 0 (mirrorToks a) s).1 then [] else ["swap-does-not-mirror"]
+        | _ => ["malformed"]
+      { model := joinBar [o, o, o, o, o, o, tokOutcome (tokInterval tol) sw], prop := cs ++ csw, skipped := sk } }
+
+def statOpF {F : Type} [FloatLike F] [Widen F Float] (op : String) (args : List String) : Option OpEval :=
+  match op with
+  | "arith" => arithOp (F := F) args
+  | "geo" => geoOp (F := F) args
+  | "harm" => harmOp (F := F) args
+  | "means" => meansOp (F := F) args
+  | "reject" => rejectOp (F := F) args
+  | "paired" => pairedOp (F := F) args
+  | "unpaired" => unpairedOp (F := F) args
+  | _ => none
+
 def statOp (op ty : String) (args : List String) : Option OpEval :=
-  match op, ty with
-  | "arith", "f" => arithOp (F := Float) args
-  | "arith", "g" => arithOp (F := Float32) args
-  | _, _ => none
+  match ty with
+  | "f" => statOpF (F := Float) op args
+  | "g" => statOpF (F := Float32) op args
+  | _ => none
 
 end StatsCI.Driver
